@@ -12,7 +12,7 @@ import numpy as np
 
 from mc import core, dense, symbolic as sym
 from mc.core import Space, OutOfDomain
-from props import c05, c16
+from props import c05, c06, c16
 
 import pytenet as ptn
 from pytenet.opchain import OpChain
@@ -24,6 +24,8 @@ LEVEL = 'model_checking'
 RULE = ('(a) model x every L>=2 with d^L<=bound x two generic parameter draws; (b) every chain list of the C05 spaces; (c) every initial '
         'graph of the C16 space and its flip; non-trivial = some bond dimension >= 2')
 BUDGET = {'quick': 400, 'thorough': 3600}
+# singular values above RANK_TOL x largest count towards the rank: rounding noise is ~1e-16, a coupling of 2^-27 next to O(10) terms ~1e-9
+RANK_TOL = 1e-13
 
 
 def schmidt_ranks(M, d, L):
@@ -36,7 +38,33 @@ def schmidt_ranks(M, d, L):
         right = list(range(k, L)) + list(range(L + k, 2 * L))
         X = np.transpose(T, left + right).reshape(d ** (2 * k), d ** (2 * (L - k)))
         s = np.linalg.svd(X, compute_uv=False)
-        ranks.append(int(np.sum(s > 1e-10 * max(1.0, s[0]))) if s.size and s[0] > 0 else 0)
+        ranks.append(int(np.sum(s > RANK_TOL * s[0])) if s.size and s[0] > 0 else 0)
+    return ranks
+
+
+def mpo_schmidt_ranks(A):
+    """
+    Operator Schmidt ranks across every cut from the MPO tensors alone (no dense matrix, sizes beyond dense reach): own
+    canonicalisation - QR sweep to the right, then SVD sweep to the left; the number of singular values above rounding
+    (RANK_TOL relative, the threshold of schmidt_ranks) at each cut is the rank.  Cross-checked against schmidt_ranks on every
+    case within dense reach.
+    """
+    T = [np.asarray(a).reshape(a.shape[0] * a.shape[1], a.shape[2], a.shape[3]).transpose(1, 0, 2) for a in A]   # (left, phys, right)
+    L = len(T)
+    for i in range(L - 1):
+        l, p, r = T[i].shape
+        Q, R = np.linalg.qr(T[i].reshape(l * p, r))
+        T[i] = Q.reshape(l, p, Q.shape[1])
+        T[i + 1] = np.einsum('kr,rps->kps', R, T[i + 1])
+    ranks = [0] * (L - 1)
+    for i in range(L - 1, 0, -1):
+        l, p, r = T[i].shape
+        U, sv, Vh = np.linalg.svd(T[i].reshape(l, p * r), full_matrices=False)
+        k = int(np.sum(sv > RANK_TOL * sv[0])) if sv.size and sv[0] > 0 else 0
+        ranks[i - 1] = k
+        k = max(k, 1)
+        T[i] = Vh[:k].reshape(k, p, r)
+        T[i - 1] = np.einsum('lpk,kj->lpj', T[i - 1], U[:, :k] * sv[:k])
     return ranks
 
 
@@ -51,28 +79,37 @@ LOCAL_DIM = {'ising': 2, 'xxz': 2, 'xxz_spin1': 3, 'bose2': 2, 'bose3': 3, 'ferm
              'linear_fermionic_a': 2, 'molecular_opt': 2, 'spin_molecular_opt': 4}
 
 
-def build_model(name, L, rng):
-    if name == 'ising':
-        return ptn.ising_mpo(L, *gen_params(rng, 3))
-    if name == 'xxz':
-        return ptn.heisenberg_xxz_mpo(L, *gen_params(rng, 3))
-    if name == 'xxz_spin1':
-        return ptn.heisenberg_xxz_spin1_mpo(L, *gen_params(rng, 3))
-    if name == 'bose2':
-        return ptn.bose_hubbard_mpo(2, L, *gen_params(rng, 3))
-    if name == 'bose3':
-        return ptn.bose_hubbard_mpo(3, L, *gen_params(rng, 3))
-    if name == 'fermi_hubbard':
-        return ptn.fermi_hubbard_mpo(L, *gen_params(rng, 3))
+TINY = 2.0 ** -27
+UNITS = 2.0 ** -60
+LAST_PARAMS = []
+
+
+def build_model(name, L, rng, draw=0):
+    """draw 0, 1: generic parameters; 2: the first parameter (coupling / first coefficient) is 2^-27; 3: all parameters in units of 2^-60."""
+    def params(n):
+        p = gen_params(rng, n)
+        if draw == 2:
+            p[0] = TINY * (1 if p[0] > 0 else -1)
+        if draw == 3:
+            p = [x * UNITS for x in p]
+        return p
+    if name in c06.MODELS:
+        # lattice models: constructor and documented formula as in C06 (the parameters are kept for the reference operator)
+        p = params(3)
+        LAST_PARAMS[:] = p
+        return c06.MODELS[name][2](L, p)
     if name.startswith('linear_fermionic'):
-        return ptn.linear_fermionic_mpo(gen_params(rng, L), 'c' if name.endswith('_c') else 'a')
+        return ptn.linear_fermionic_mpo(params(L), 'c' if name.endswith('_c') else 'a')
+    t = rng.normal(size=(L, L))
+    v = rng.normal(size=(L, L, L, L))
+    if draw == 2:
+        t[0, :] *= TINY
+        v[0] *= TINY
+    if draw == 3:
+        t, v = t * UNITS, v * UNITS
     if name == 'molecular_opt':
-        t = rng.normal(size=(L, L))
-        v = rng.normal(size=(L, L, L, L))
         return ptn.molecular_hamiltonian_mpo(t, v, optimize=True)
     if name == 'spin_molecular_opt':
-        t = rng.normal(size=(L, L))
-        v = rng.normal(size=(L, L, L, L))
         return ptn.spin_molecular_hamiltonian_mpo(t, v, optimize=True)
     raise ValueError(name)
 
@@ -82,19 +119,49 @@ def _model_cases(maxdim):
         d = LOCAL_DIM[name]
         L = 2
         while d ** L <= maxdim:
-            for draw in (0, 1):
+            for draw in (0, 1, 2, 3):
                 yield {'model': name, 'L': L, 'draw': draw}
             L += 1
+
+
+# sizes beyond dense reach (judged with the tensor-network rank oracle only)
+LARGE_L = {'quick': {'ising': [11, 16, 24], 'xxz': [11, 16, 24], 'xxz_spin1': [7, 12], 'bose2': [11, 16], 'bose3': [7, 12], 'fermi_hubbard': [6, 8, 12],
+                     'linear_fermionic_c': [11, 16, 24], 'linear_fermionic_a': [11, 16], 'molecular_opt': [11, 12, 13, 14], 'spin_molecular_opt': [6, 7]},
+           'thorough': {'ising': list(range(11, 33)), 'xxz': list(range(11, 33)), 'xxz_spin1': list(range(7, 21)), 'bose2': list(range(11, 25)),
+                        'bose3': list(range(7, 17)), 'fermi_hubbard': list(range(6, 17)), 'linear_fermionic_c': list(range(11, 33)),
+                        'linear_fermionic_a': list(range(11, 33)), 'molecular_opt': [11, 12, 13, 14, 15, 16], 'spin_molecular_opt': [6, 7, 8]}}
+
+
+def _large_cases(tier):
+    for name in MODELS:
+        for L in LARGE_L[tier][name]:
+            for draw in ((0, 2) if 'molecular' in name else (0, 1, 2, 3)):
+                yield {'model': name, 'L': L, 'draw': draw}
 
 
 def run_model_case(case, ctx):
     name, L = case['model'], case['L']
     d = LOCAL_DIM[name]
-    mpo = build_model(name, L, ctx.rng(case['draw']))
+    mpo = build_model(name, L, ctx.rng(case['draw']), case['draw'])
+    ctx.cls('parameters:' + ['generic', 'generic', 'first_tiny', 'small_units'][case['draw']])
     ctx.calls += 1
     bd = list(mpo.bond_dims)
-    M = dense.mpo_to_matrix(mpo.A)
-    ranks = schmidt_ranks(M, d, L)
+    ranks = mpo_schmidt_ranks(mpo.A)
+    if d ** L <= 1024:
+        # within dense reach both rank oracles are computed and must agree (a disagreement is an error of this harness)
+        rd = schmidt_ranks(dense.mpo_to_matrix(mpo.A), d, L)
+        if rd != ranks:
+            ctx.fail('HARNESS', f'rank oracles disagree: dense {rd} vs tensor-network {ranks}')
+            return
+        ctx.cls('both_rank_oracles')
+        if name in c06.MODELS:
+            # "the operator Schmidt rank of the dense operator": the model's documented operator (independent construction of C06),
+            # not merely the operator the MPO happens to represent
+            Href = c06.MODELS[name][3](L, list(LAST_PARAMS))
+            ranks = schmidt_ranks(Href, d, L)
+            ctx.cls('rank_of_documented_operator')
+    else:
+        ctx.cls('beyond_dense_reach')
     ctx.obs(np.asarray(bd))
     ctx.cls('model:' + name)
     ctx.nontrivial = max(bd) >= 2
@@ -115,10 +182,13 @@ def run_chain_case(case, ctx):
         return
     widths = [len(l) for l in layers]
     qd = [0, 0] if mode != 'consistent' else sym.FAITHFUL_QD
-    if mode == 'interior':
+    if mode in ('interior', 'interior_neg'):
         bd = widths
     else:
-        mpo = MPO.from_opgraph(qd, graph, sym.FAITHFUL)
+        # (operator labels of the C05 spaces may be arbitrary integers: same assignment of the faithful operators as in C05)
+        labels = sorted({o for _, w, _, _ in chains for o in w} | {0})
+        opmap = sym.FAITHFUL if all(0 <= o <= 3 for o in labels) else {o: sym.FAITHFUL[abs(o) % 4] for o in labels}
+        mpo = MPO.from_opgraph(qd, graph, opmap)
         bd = list(mpo.bond_dims)
     ctx.obs(np.asarray(bd))
     ctx.nontrivial = max(bd) >= 2 or len(nz) >= 2
@@ -168,7 +238,9 @@ def sig(case):
 
 def spaces(tier, seed):
     sp = [Space('models', core.chunked(_model_cases(1024), 1), run_case=run_model_case, sig=sig,
-                bounds={'models': MODELS, 'dense_dim<=': 1024, 'L>=': 2, 'parameter_draws': 2})]
+                bounds={'models': MODELS, 'dense_dim<=': 1024, 'L>=': 2, 'parameter_draws': '2 generic, first parameter 2^-27, all parameters in units of 2^-60'}),
+          Space('models_large', core.chunked(_large_cases(tier), 1), run_case=run_model_case, sig=sig,
+                bounds={'L': LARGE_L[tier], 'rank_oracle': 'own QR/SVD canonicalisation of the MPO tensors (agrees with the dense oracle on every case of the space "models")'})]
     for s in c05.spaces(tier, seed):
         if s._run_chunk is not None:
             continue        # history spaces of C05 are not chain-list programs
